@@ -1,6 +1,7 @@
 import Dawgs.Props.C09
 import Dawgs.Props.C12
 import Dawgs.Props.C14
+import Dawgs.Props.C15
 import Dawgs.Props.C16
 import Dawgs.Props.C16Conc
 import Dawgs.Props.C16Locks
